@@ -10,7 +10,7 @@ import pandas as pd
 
 from common import R
 
-LEAN_MODULES = ["PyomaVerif.Props.C19", "PyomaVerif.Mutants.C19"]
+LEAN_MODULES = ["PyomaVerif.Props.C19", "PyomaVerif.Props.C19Geo2", "PyomaVerif.Mutants.C19"]
 THEOREMS = [
     "PV.C19.C19_flatten_single",
     "PV.C19.C19_flatten_multi",
@@ -41,6 +41,20 @@ THEOREMS = [
     "PV.C19.C19_map_unknown",
     "PV.C19.C19_displace",
     "PV.C19.C19_defgeo1_forms",
+    "PV.C19.C19_names_geo2",
+    "PV.C19.C19_defgeo2_forms",
+    "PV.C19.C19_defgeo2_names",
+    "PV.C19.C19_defgeo1_names",
+    "PV.C19.C19_defgeo2_reject_iff",
+    "PV.C19.C19_defgeo1_reject_iff",
+    "PV.C19.C19_default_sign",
+    "PV.C19.C19_optional_geo2_sign",
+    "PV.C19.C19_displace_default_sign",
+    "PV.C19.C19_mapCell_not_nan",
+    "PV.C19.C19_map_zero_checked",
+    "PV.C19.C19_map_cstr_aligned",
+    "PV.C19.C19_map_cstr_labelwise",
+    "PV.C19.C19_dot_scale",
     "PV.C19M.prefix_geo2_optional_fails",
     "PV.C19M.prefix_defgeo1_forms_fails",
     "PV.C19M.firstdict_map_fails",
